@@ -1,7 +1,8 @@
 SPECIFICATION Spec
 CONSTANT MaxCalls = 1
 CONSTANT MaxPerPeer = 1
-CONSTANT KindSet = {"NowOk", "LaterUndecl", "Never"}
+CONSTANT KindSet = {"NowOk", "NowDeclSub", "LaterFatalSub", "LaterUndecl", "Never"}
+CONSTANT Flags = {TRUE, FALSE}
 CONSTANT QC = {TRUE, FALSE}
 VIEW View
 INVARIANT ExactlyOnce
